@@ -1,7 +1,8 @@
 """C07 - recorded history survives a crash at any instant (DESIGN.md section 5, C07).
 
 proof:          coq/Props/C07.v (every crash state of open/write/close/update/chtimes answers as the run map before or after the
-                operation; an update recorded after a kill inside a write/update is answered afterwards; retention, rename: P1) -
+                operation; an update recorded after a kill inside a write/update is answered afterwards; retention / rename: the
+                exact intermediate run map) -
                 over all reachable states x all operations x all crash prefixes/torn tails of the MODEL
 fault enumeration against the implementation (process kill, not power loss):
                 harness/cmd/crash runs scripted scenarios on the real jsondb under
@@ -758,7 +759,7 @@ def run(ctx, replay_cases=None):
     ctx.assumptions = [
         "process kill, not power loss; one recording process per DAG run (the agent), readers are fresh processes",
         "premises of C06 (safe names, distinct request ids / start seconds per DAG) for the theorems",
-        "theorems: open/write/close/update/chtimes atomic (P1-P4); update after a torn write/update answered; retention and rename: P1 (_partial)",
+        "theorems: open/write/close/update/chtimes atomic (P1-P4); update after a torn write/update answered; retention / rename: every crash state answers as the run map with some of the expired runs removed / some of the runs moved (not atomic, by design)",
     ]
     if ctx.tier == "thorough":
         ctx.coqchk()
